@@ -209,7 +209,7 @@ fn run_encode(cfg: &config::Encoder, sc: &Scenario, multithread: bool) -> Result
 }
 
 /// Executes one scenario inside the child; returns the JSON result line.
-fn exec_scenario(prop: &str, sc: &Scenario) -> Value {
+pub fn exec_scenario(prop: &str, sc: &Scenario) -> Value {
     let mut violations: Vec<(String, String)> = vec![];
     let mut stats = serde_json::Map::new();
     // reference: single-thread with the same (faulty) source
@@ -219,17 +219,23 @@ fn exec_scenario(prop: &str, sc: &Scenario) -> Value {
     } else {
         std::env::remove_var("FLACENC_WORKERS");
     }
-    let base_threads = supervise::os_thread_count();
+    // under Miri /proc would describe the interpreter, not the program: the event log (T5) and
+    // Miri's own leak check decide there
+    // ThreadSanitizer starts a background thread of its own lazily: the OS-level count is only
+    // meaningful in the plain builds (the event-log rule T5 applies everywhere)
+    let tsan = crate::common::mode() == "tsan";
+    let os_count = || if cfg!(miri) || tsan { 0 } else { supervise::os_thread_count() };
+    let base_threads = os_count();
     let _ = crate::common::take_helper_panics();
     sched::begin_run(sc.policy, prng::hash_str(&sc.label));
     let par = run_encode(&sc.cfg, sc, true);
     let log = sched::end_run();
     // OS-level confirmation of "no thread left": wait (bounded) for the count to come back
-    let mut after = supervise::os_thread_count();
+    let mut after = os_count();
     let mut waited = 0;
     while after > base_threads && waited < 40 {
         std::thread::sleep(Duration::from_millis(5));
-        after = supervise::os_thread_count();
+        after = os_count();
         waited += 1;
     }
     let helper_panics = crate::common::take_helper_panics();
@@ -290,20 +296,11 @@ fn exec_scenario(prop: &str, sc: &Scenario) -> Value {
             }
         }
     } else {
-        // faulty source: same kind of error as single-thread (any injected fault's kind accepted
-        // when several faults are present)
-        let accept: Vec<String> = if sc.faults.len() == 1 {
-            vec![sk.clone()]
-        } else {
-            let mut v = vec![sk.clone()];
-            for f in &sc.faults {
-                v.push(match f {
-                    Fault::ErrAt(_) => "Err:Source".into(),
-                    Fault::BadAt { .. } => "Err:Config".into(),
-                });
-            }
-            v
-        };
+        // faulty source: the same kind of error single-thread encoding returns for the same
+        // source. Single-thread meets the first fault in stream order; par mode reads the source
+        // in the same order from one feeder thread, encodes every block read before a failing
+        // read, and reports a worker's error before the feeder's, so it is deterministic too.
+        let accept: Vec<String> = vec![sk.clone()];
         if sk == "Ok" {
             // the fault did not manifest (e.g. error injected at a read that never happens)
             if pk != "Ok" {
@@ -467,7 +464,7 @@ pub fn run_c06(ctx: &Ctx) -> i32 {
     let fin = Finish {
         level: "fault_enumeration",
         rule: "'enum' enumerates F in {1,2,3,5,8,12} frames x fault kind (read error at read k for every k in 0..=F; out-of-range sample at first/middle/last position of block k for every k < F) x W x schedule policy (quick: W in {1,2,4}, 3 policies; thorough: W in {1,2,3,4,8}, 8 policies); 'combo' = 2-4 random faults; 'faultfree' = no fault. Each scenario runs in a supervised child: the call must return (deadlock = all tasks in futex wait without CPU time/context switches for 20 samples), no thread may panic, the error kind must equal single-thread's for the same source, no helper thread may be alive at return (event log T5 + /proc/self/task), and fault-free runs satisfy T1-T4; distinct = distinct interleavings",
-        assumptions: vec!["with several faults any injected fault's kind is accepted (par mode may meet a later one first)".into(), "a livelock that keeps switching context would be inconclusive (watchdog), not a violation".into()],
+        assumptions: vec!["a livelock that keeps switching context would be inconclusive (watchdog), not a violation".into()],
         exhaustive: Some(false),
         floors: vec![("scenarios that returned an error (fault manifested)".into(), out.stats.iter().filter(|(k, _)| k.starts_with("result_par_Err")).map(|(_, v)| *v).sum(), 100)],
         extra: json!({"enumerated_grid": grid}),
